@@ -5,9 +5,13 @@ import runner, thrutil, sched
 from props import c11
 
 TRUSTED = c11.TRUSTED
-ASSUMPTIONS = c11.ASSUMPTIONS + ['the event loop thread processes scripted server frames (Close, Ping) and timer ticks; protocol-error closes (1002) are single-threaded and belong to C04/C08']
+ASSUMPTIONS = c11.ASSUMPTIONS + ['when the Close frame\'s own sendall is made to fail, frames written between the release of the lock and `closing = True` of close() '
+                                 '(after the TORN Close frame) are counted, not judged: Properties/C12_Fail.lean proves what holds (one COMPLETE Close, nothing after it, '
+                                 'close() always ends closing) and keeps the two schedules as witness theorems',
+                                 'the event loop thread processes scripted server frames (Close, Ping) and timer ticks; protocol-error closes (1002) are single-threaded and belong to C04/C08']
 
-LEANCHECK_MODULES = ['Lomond.Model.Threads', 'Lomond.Proofs.Threads', 'Lomond.Proofs.ThreadsC', 'Lomond.Proofs.ThreadsP']
+LEANCHECK_MODULES = ['Lomond.Model.Threads', 'Lomond.Model.ThreadsN', 'Lomond.Proofs.Threads', 'Lomond.Proofs.ThreadsC', 'Lomond.Proofs.ThreadsP',
+                     'Lomond.Proofs.ThreadsN', 'Lomond.Proofs.ThreadsNW', 'Lomond.Proofs.ThreadsNC']
 
 
 def prog(t, kinds):
@@ -30,8 +34,48 @@ def _one(t, i, k):
     raise ValueError(k)
 
 
-def case(z, kinds_per_thread, pb=None, family=''):
-    return dict(z=z, progs=[prog(t, ks) for t, ks in enumerate(kinds_per_thread)], pb=pb, family=family)
+def case(z, kinds_per_thread, pb=None, family='', n=None, fail=None):
+    c = dict(z=z, progs=[prog(t, ks) for t, ks in enumerate(kinds_per_thread)], pb=pb, family=family)
+    if n is not None:
+        c['n'] = n
+    if fail:
+        c['fail'] = [list(f) for f in fail]
+    return c
+
+
+def socket_witnesses():
+    """the window after a FAILED Close write (Properties/C12_Fail.lean torn_close_then_data / torn_close_then_close):
+    T0 close() runs through its failing write and the release (9 entries), T1 runs completely, T0 sets the flag"""
+    a = case(0, [['cl'], ['st0']], n=2, fail=[(0, 0, 1)])
+    b = case(0, [['cl'], ['cl']], n=2, fail=[(0, 0, 1)])
+    return [dict(a, mode='sync', family='witness-torn-close-then-data', schedule=[0] * 9 + [1] * 7 + [0] * 2),
+            dict(b, mode='sync', family='witness-torn-close-then-close', schedule=[0] * 9 + [1] * 12 + [0] * 2)]
+
+
+def socket_families(tier):
+    """the general socket: close() in n chunks; a Close write (or a data write) that fails after k chunks"""
+    fams = [
+        case(0, [['cl'], ['st0']], n=1, family='chunks-1-close-send'),
+        case(0, [['cl'], ['st0']], n=3, family='chunks-3-close-send'),
+        case(0, [['cl'], ['cl']], n=3, family='chunks-3-close-close'),
+        case(0, [['cl'], ['rc']], n=3, pb=3, family='chunks-3-close-serverclose'),
+        case(0, [['cl'], ['st0'], ['rc']], n={'*': 2, '0.0': 4}, pb=2, family='chunks-mixed-close-send-serverclose'),
+    ]
+    for k in range(0, 3):
+        fams.append(case(0, [['cl'], ['st0']], n=2, fail=[(0, 0, k)], family='closefail-%d-of-2-send' % k))
+        fams.append(case(0, [['cl'], ['cl']], n=2, fail=[(0, 0, k)], family='closefail-%d-of-2-close' % k))
+    fams.append(case(0, [['cl'], ['st0']], n=2, fail=[(1, 0, 1)], family='sendfail-close'))
+    fams.append(case(0, [['cl'], ['rc']], n=2, fail=[(0, 0, 1)], pb=3, family='closefail-serverclose'))
+    fams.append(case(0, [['st0'], ['rc']], n=2, fail=[(1, 0, 1)], family='echofail-send'))
+    fams.append(case(0, [['cl', 'st0'], ['sb0', 'cl']], n=3, fail=[(0, 0, 2)], pb=3, family='closefail-2x2'))
+    if tier != 'quick':
+        fams += [
+            case(0, [['cl'], ['cl'], ['st0']], n=3, fail=[(0, 0, 1)], pb=3, family='closefail-close-send'),
+            case(0, [['cl'], ['st0'], ['rc']], n=3, fail=[(0, 0, 3)], pb=3, family='closefail-send-serverclose'),
+            case(0, [['cl', 'cl'], ['st0', 'sb0']], n=2, fail=[(0, 0, 0)], pb=4, family='closefail-retry'),
+            case(0, [['st0', 'cl', 'sb0'], ['cl', 'pi', 'st0'], ['rp', 'rc', 'tk']], n=3, fail=[(0, 1, 1), (2, 0, 2)], pb=2, family='3x3-fail'),
+        ]
+    return fams
 
 
 def witnesses():
@@ -63,7 +107,7 @@ def line_witnesses():
 
 
 def families(tier):
-    fams = [
+    fams = socket_families(tier) + [
         case(0, [['cl'], ['st0']], family='close-send'),
         case(0, [['cl'], ['sb0']], family='close-send'),
         case(0, [['cl'], ['pi']], family='close-ping'),
@@ -98,8 +142,14 @@ def line_cases(rng, n):
     for k in range(n):
         z, kinds = shapes[k % len(shapes)]
         c = case(z, kinds)
+        extra = {}
+        if k % 3 == 1:
+            extra['n'] = 1 + k % 4
+        if k % 4 == 2:
+            extra['n'] = 3
+            extra['fail'] = [[0, 0, k % 4]]
         out.append(dict(z=z, progs=c['progs'], mode='line', family='line-sample',
-                        schedule=thrutil.random_line_schedule(rng, len(kinds), max(len(p) for p in kinds))))
+                        schedule=thrutil.random_line_schedule(rng, len(kinds), max(len(p) for p in kinds)), **extra))
     return out
 
 
@@ -109,14 +159,16 @@ def explore(res, tier, seed, model_ok=True):
     rng = random.Random(seed)
     quick = tier == 'quick'
     fams = families(tier)
-    res.rule = ('real lomond under the deterministic scheduler of C11: (a) the D8 witness schedules (data after Close, two Closes, the reply window), at sync and at line '
-                'granularity; (b) for each family - close() against send_text/send_binary/send_ping/close() on other threads and against the event loop '
+    res.rule = ('real lomond under the deterministic scheduler of C11 (sendall in n chunks, n = 1..4; sendalls - of the Close frame itself, of data frames, of the loop\'s echo - '
+                'made to fail after k chunks): (a) the D8 witness schedules (data after Close, two Closes, the reply window), at sync and at line '
+                'granularity, and the two schedules of the window after a FAILED Close write; (b) for each family - close() against send_text/send_binary/send_ping/close() on other threads and against the event loop '
                 '(echo of a server Close, completion of our own close by the server\'s Close, auto-pong, auto-ping), 2-3 threads - EVERY maximal interleaving at '
                 'sync-step granularity up to the stated preemption bound, enumerated by the model driver and executed on the real code; (c) 300 (quick) / 3000 uniformly random sync-granularity schedules that also schedule threads waiting for the lock; (d) %d sampled '
                 'line-granularity schedules.  Model and real code compared on the executed step log, chunks, results, flags.  Oracle: reference decoder on the '
-                'bytes written: <= 1 Close, nothing after it, a send is on the wire iff it returned ok, losers raised a WebSocketError.  '
+                'bytes written: <= 1 complete Close, nothing (not even a partial frame) after it, a send is on the wire iff it returned ok, losers raised a WebSocketError '
+                '(TransportFail exactly where the socket was made to fail), a close() that has returned leaves the websocket closing or closed.  '
                 'non-trivial = some thread was preempted; distinct by (programs, executed step sequence)') % (120 if quick else 1500)
-    cases = witnesses() + line_witnesses()
+    cases = witnesses() + line_witnesses() + socket_witnesses()
     enum = thrutil.enumerate_cases(fams, model_ok, rng, cap=None if not quick else 6000)
     for f in fams:
         res.exhaustive['sync_interleavings %s z=%d pb=%s [%s]' % (f['family'], f['z'], f.get('pb') or 'none', thrutil.progs_str(f)[:60])] = f.get('n_schedules', 0)
